@@ -4,6 +4,8 @@ mod engine;
 mod gens;
 mod minimise;
 mod models;
+#[cfg(feature = "snap")]
+mod nhr;
 mod prng;
 mod props;
 mod seams;
